@@ -403,5 +403,8 @@ def run(ctx):
     impl_identity(ctx, pairs, good)
     cfg_census(ctx)
     width_twins(ctx)
+    from . import c06
+    reset_caches()
+    c06.twins_only(ctx)
     return ('Behavioural identity is decided as identity of the extracted tables (scalar encoders/decoders/accessors, integer conversions, floats, built-in impl summaries, sinks, bridge methods, panic census) in each configuration; '
             'derive expansions (C07-C10) and the I/O crate are configuration-independent except through these. target_pointer_width=32 twins cannot be compiled here.')
